@@ -12,6 +12,13 @@
 #include "common.h"
 
 
+#ifdef TUKAANI_PROJECT_XZ_VERIF
+// Storage for the observability hooks; see verif_hooks.h.
+uint64_t lzma_verif_visit_counts[VERIF_D_COUNT][VERIF_VALUES];
+uint32_t lzma_verif_mf_offset_bias = 0;
+#endif
+
+
 /////////////
 // Version //
 /////////////
